@@ -31,7 +31,7 @@ def getNat := Wire.nat
 def handleExplain (j : Json) : Json :=
   match explain Generated.catalogue (getStr j "prefix", getNat j "code") with
   | .found c => Json.mkObj [("r", "found"), ("module", c.module), ("name", c.name),
-      ("categories", toJson c.categories), ("code", c.code), ("prefix", c.pfx)]
+      ("categories", toJson c.categories), ("code", c.code), ("prefix", c.pfx), ("head", c.explainHeader)]
   | .noDoc => Json.mkObj [("r", "noDoc")]
   | .notFound => Json.mkObj [("r", "notFound")]
 
